@@ -168,9 +168,12 @@ def dict2structure(dictionary: dict) -> Structure:
     structure
     """
     dictionary = copy.deepcopy(dictionary)
+    atoms = dictionary["atoms"]
+    # Atoms are keyed by their index as a string. HDF5 lists these keys
+    # in alphabetical order ("10" before "2"), so sort them numerically
     return Structure(
         lattice=dict2lattice(dictionary["lattice"]),
-        atoms=[dict2atom(atom) for atom in dictionary["atoms"].values()],
+        atoms=[dict2atom(atoms[key]) for key in sorted(atoms, key=int)],
     )
 
 
